@@ -32,6 +32,18 @@ func sharedLockEngine(c *Ctx) *LockEngine {
 	e := NewLockEngine(c.P)
 	e.IfaceImpls = interfaceImplementations(c.P)
 	e.Singleton = singletonLockClasses
+	// Reporting a removal to the kernel (FUSE entry notification) is a blocking upcall: the kernel
+	// may be holding the directory's inode lock on behalf of a lookup that is itself waiting for
+	// the directory lock. Every call site in the tree drops its locks first.
+	if obj := c.P.Pkg(virtualPkg).Types.Scope().Lookup("StatefulDirectoryHandle"); obj != nil {
+		if iface, ok := obj.Type().Underlying().(*types.Interface); ok {
+			for i := 0; i < iface.NumMethods(); i++ {
+				if m := iface.Method(i); m.Name() == "NotifyRemoval" {
+					e.BlockingCallees[m.Origin()] = "*"
+				}
+			}
+		}
+	}
 	e.Run()
 	dumpClasses(e)
 	dumpSummaries(e, c.P)
